@@ -50,7 +50,11 @@ def cases(draw, max_lines=48, max_pixels=32):
             pixels = 1
         elif shape_kind == "1x1":
             lines = pixels = 1
-        images.append({"lines": lines, "pixels": pixels})
+        im = {"lines": lines, "pixels": pixels}
+        if draw(st.integers(0, 5)) == 0:
+            # line numbers are labels: they may start again half way or be unset
+            im["line_numbers"] = draw(st.sampled_from(["restart", "zeros"]))
+        images.append(im)
     rpc = draw(rpc_strategy(images[0]["lines"]))
     fs = draw(st.sampled_from(["local", "file", "memory", "vtrace"]))
     vseed = draw(st.integers(0, 2**32 - 1))
@@ -69,7 +73,7 @@ def cases(draw, max_lines=48, max_pixels=32):
 
 
 def plan(tier):
-    pairs = common.in_place_pairs(cases(16, 8))
+    pairs = common.in_place_pairs(cases(16, 8), stale_index=True)
     if tier == "quick":
         return [{"kind": "hyp", "name": "products", "strategy": cases(), "examples": 480},
                 {"kind": "hyp", "name": "in-place-pairs", "strategy": pairs, "examples": 80}]
